@@ -337,6 +337,9 @@ def run_sim(sim: Sim, main: Callable[[Sim], Any]) -> None:
                     await main(sim)
                 finally:
                     sim.end_time = anyio.current_time() - sim.t0
+                    # what the backend does after the workload has ended (shutting down
+                    # leaked async generators, cancelling the watchdog) is not part of the run
+                    sim.trace_steps = False
                 tg.cancel_scope.cancel()
         except Abort:
             pass
